@@ -91,7 +91,7 @@ def _atheris_part(mod, base):
     def prop(case):
         if "atheris_stats" in case:
             st_ = case["atheris_stats"]
-            return {"nt": False, "atheris_campaign": True, "atheris_harness_errors": st_.get("harness") or None,
+            return {"nt": st_.get("nontrivial", 0) > 0, "atheris_campaign": True, "atheris_harness_errors": st_.get("harness") or None,
                     "_sum": {"atheris_executions": st_.get("runs", 0), "atheris_nontrivial_executions": st_.get("nontrivial", 0),
                              "atheris_campaign_seconds": st_.get("seconds", 0)}}
         return base.prop(case)
